@@ -679,10 +679,12 @@ def q_cas(cfg):
             dom = dominators(f)
             cs = calls(f, lambda e: e.get('name') == callee)
             sets = [(b, i, e) for b, i, e in f.elements() if e.get('k') == 'binop' and e.get('op') == '=' and lval_sig(f, e['l']) == 'this.paused' and isinstance(f.strip_casts(e['r']), dict) and f.strip_casts(e['r']).get('k') == 'bool' and bool(f.strip_casts(e['r']).get('v')) == val]
-            ok = len(cs) == 1 and len(sets) >= 1 and all(elem_dominates(f, dom, (cs[0][0], cs[0][1]), (b, i)) for b, i, _ in sets)
-            res.ob(ok, {'rule': 'Q-6', 'function': sh(f.name), 'fact': 'paused := %s after %s' % (val, callee), 'verdict': 'discharged' if ok else 'VIOLATION'})
+            # both happen on every path; their relative order only matters when the call can fail (that is EXC-1, C08)
+            exit_doms = dom.get(f.exit, set())
+            ok = len(cs) == 1 and cs[0][0] in exit_doms and any(b in exit_doms for b, i, _ in sets)
+            res.ob(ok, {'rule': 'Q-6', 'function': sh(f.name), 'fact': 'paused := %s and %s, both on every path' % (val, callee), 'verdict': 'discharged' if ok else 'VIOLATION'})
             if not ok:
-                res.find(f, f.loc, '%s must call qsbr::%s exactly once and set paused = %s after it' % (nm, callee, str(val).lower()), key='Q-6:' + nm, config=cfg.name)
+                res.find(f, f.loc, '%s must call qsbr::%s exactly once and set paused = %s, both on every path' % (nm, callee, str(val).lower()), key='Q-6:' + nm, config=cfg.name)
     res.floor('pause/resume', 2)
     return res
 
@@ -954,6 +956,14 @@ def q_tagging(cfg):
                     a0, a1 = c['args']
                     if eq and ((is_last_seen(a0) and fresh_epoch(a1)) or (is_last_seen(a1) and fresh_epoch(a0))):
                         ok = True
+            if not ok:
+                # ... or the thread has just caught up: advance_last_seen_epoch(_, fresh epoch) dominates the append (the
+                # callee sets last_seen_epoch to its argument on every path - Q-3 / Q-4 judge the callee)
+                dom_ = dominators(f)
+                for b2, i2, e2 in f.elements():
+                    if e2.get('k') == 'call' and e2.get('name') == 'advance_last_seen_epoch' and len(e2.get('args', [])) >= 2 and fresh_epoch(e2['args'][1]) and not is_assert_elem(e2):
+                        if (b2 == b and i2 < i) or (b2 != b and b2 in dom_.get(b, ())):
+                            ok = True
             res.ob(ok, {'rule': 'Q-11', 'function': sh(f.name), 'site': fileline(e.get('loc')), 'fact': 'append to the current-interval list is control-dependent on last_seen_epoch == fresh global epoch', 'verdict': 'discharged' if ok else 'VIOLATION'})
             if not ok:
                 res.find(f, e.get('loc'), 'a request is appended to current_interval_dealloc_requests on a path on which last_seen_epoch is not known to equal the global epoch just read: if the epoch has moved on, the request is filed (and later rotated) one epoch too old and is freed one epoch change early - while a thread that passed its quiescent state before the request was made may still reference the object', key='Q-11:stale-epoch-append', config=cfg.name)
@@ -997,7 +1007,8 @@ def q_tagging(cfg):
     res.count('new requests handed to advance_last_seen_epoch', m)
     res.count('appends to the current-interval list', n)
     res.floor('appends to the current-interval list', 1)
-    res.floor('new requests handed to advance_last_seen_epoch', 1)
+    res.count('filing sites of a new request', n + m)
+    res.floor('filing sites of a new request', 2)
     return res
 
 
